@@ -10,6 +10,8 @@
     dirfiles <missing|file|dir> <prefix> <rels>   DirFiles
     hashdir <missing|file|dir> <prefix> <rels> <contents>   HashDir with Hash1
     hashzip <names> <contents>                    HashZip with Hash1 on the archive with these entries, in order
+    hashmodzip <path> <version> <rels> <contents>   HashZip of zip.Create's archive for these files
+    hashunzip <path> <version> <rels> <contents>    HashDir (prefix path@version) of the directory zip.Unzip extracts that archive to
     sha256 <bytes>                                the executable SHA-256 the driver links
 -/
 import ModVerif.Drv.Util
@@ -61,6 +63,12 @@ def handle : Handler
   | "hashzip", [ns, cs] => do
       let ns ← hxList ns; let cs ← hxList cs
       pure (showRes (hashZip sha (ns.zip cs)))
+  | "hashmodzip", [path, ver, rels, cs] => do
+      let path ← hx path; let ver ← hx ver; let rels ← hxList rels; let cs ← hxList cs
+      pure (showRes (hashModZip sha path ver (rels.zip cs)))
+  | "hashunzip", [path, ver, rels, cs] => do
+      let path ← hx path; let ver ← hx ver; let rels ← hxList rels; let cs ← hxList cs
+      pure (showRes (hashUnzipped sha path ver (rels.zip cs)))
   | "sha256", [b] => do let b ← hx b; pure (xh (sha b))
   | _, _ => none
 
